@@ -283,6 +283,49 @@ def c19_3(ck, prog):
                     'the replayed messages are not addressed to the primary owner of the new service')
 
 
+def c19_7(ck, prog, rid='C19.7'):
+    r = ck.rule(rid, 'the connection remembered in a held auto-start request is used again only after it was found to '
+                'be still connected (or absent, for requests that did not come from a connection): every call that '
+                'is handed entry->connection lies behind dbus_connection_get_is_connected (entry->connection)', 'DOM',
+                breaks='a requester that disconnected before the activation finished is sent the outcome: the bus '
+                'dereferences the per-connection data that was freed at disconnect (assertion / NULL dereference)',
+                floor=3)
+    PASSIVE = {'dbus_connection_get_is_connected', 'dbus_connection_unref', 'dbus_connection_ref'}
+    REC = 'BusPendingActivationEntry'
+    n = 0
+    for fn in lib.prod_funcs(prog, files={A}):
+        sinks = [c for b, i, c in fn.calls() if c.get('callee') not in PASSIVE
+                 and any(is_member(a, 'connection', REC) for a in c['args'])]
+        if not sinks:
+            continue
+        sink_ids = {c['id'] for c in sinks}
+        live = {c['id'] for b, i, c in fn.calls('dbus_connection_get_is_connected')
+                if c['args'] and is_member(c['args'][0], 'connection', REC)}
+
+        def akey(atom, resolve):
+            if atom[0] == 'truthy' and is_member(atom[1], 'connection', REC):
+                return 'has-connection'
+            return None
+
+        def on_event(user, ev, ctx, fn=fn, sink_ids=sink_ids, live=live):
+            if ev['ev'] == 'call' and ev['e']['id'] in sink_ids:
+                if any(ctx.result_known(i) is True for i in live) or ctx.atom('has-connection') is False:
+                    return user
+                ctx.report('%s is handed the remembered connection on a path where it was not found to be still '
+                           'connected' % ev['e'].get('callee'), ev['line'], key=(ev['e'].get('callee'), ev['line']))
+            return user
+        ex = Explorer(fn, on_event=on_event, atom_key=akey, calls={'dbus_connection_get_is_connected'}, track='auto',
+                      cap=600000).run()
+        n += len(sinks)
+        if ex.reports:
+            r.from_reports(ex.reports, keyfn=lambda k, rep, fn=fn: '%s:%s@unchecked' % (fn.name, k[0]))
+        else:
+            for c in sinks:
+                r.ok('%s:%s' % (fn.name, c.get('callee')))
+    if n < 3:
+        raise AnalysisBroken('uses of the remembered connection of held requests not found (%d)' % n)
+
+
 def run(ck):
     ck.explanation = (
         'Static rules over bus/activation-helper.c and bus/activation.c: (DOM/WHO) execv is reachable only through '
@@ -298,6 +341,7 @@ def run(ck):
         c19_1(ck, prog)
         c19_2(ck, prog)
         c19_3(ck, prog)
+        c19_7(ck, prog)
         r = ck.rule('C19.6', 'pending activations (and the messages they hold) survive everything but the end of the '
                     'bus: the table of pending activations and the activation object are created once and released '
                     'only by their destructors, never by a configuration reload', 'WHO',
